@@ -27,7 +27,7 @@ LEVEL = 'exploration'
 TECHNIQUE = ('property-based testing (Hypothesis) of validate_h5ad on generated h5ad files plus a deterministic grid aimed at '
              'every integer-type edge, against a reference model of the statement (exact rational comparison of every entry, '
              'gene renaming derived from the shipped lookup tables, sha256 of the input, directory census)')
-RULE = ('cases = (a) aimed grid: each of the %d boundary values as the extreme of a 3x5 matrix x {csr, csc, dense} '
+RULE = ('cases = (a) deterministic files for every rejection reason and for "nothing to do" (66) and an aimed grid: each of the %d boundary values as the extreme of a 3x5 matrix x {csr, csc, dense} '
         '(thorough: x {X, layer} x {default, re-chunked} x {float64, float32}); (b) generated files: 1-8 cells x 1-11 genes, '
         'float32/float64/int32/int64/uint8/uint16/uint32 values (integers stored as floats, fractions, negatives, boundary spikes), '
         'csr/csc/dense, default / re-chunked / contiguous HDF5 layouts, X or a named layer, gene lists mixing real and random Ensembl ids '
@@ -69,7 +69,7 @@ UNREPAIRED = {
 
 
 def budget(tier):
-    return {'quick': 1600, 'thorough': 48000}[tier]
+    return {'quick': 1600, 'thorough': 32000}[tier]
 
 
 def strategy(tier):
@@ -135,7 +135,7 @@ def exclude(spec):
 
 
 def enumerate_specs(tier):
-    return [s for s in g.aimed_specs(tier) if not exclude(s)]
+    return [s for s in g.fixed_specs() + g.aimed_specs(tier) if not exclude(s)]
 
 
 def sample_view(spec):
